@@ -1,9 +1,35 @@
 use crate::{f, fo, fv};
+use engeom::common::{angle_in_direction, angle_signed_pi, angle_to_2pi, signed_compliment_2pi, AngleDir, AngleInterval, Interval};
+use engeom::geom2::{directed_angle, signed_angle, Vector2};
 use serde_json::{json, Value};
+
+fn dir(v: &Value) -> AngleDir {
+    if v.as_str().unwrap() == "cw" { AngleDir::Cw } else { AngleDir::Ccw }
+}
 
 pub fn run(k: &str, a: &Value) -> Option<Value> {
     Some(match k {
         "noop" => json!(null),
+        "angle_to_2pi" => fo(angle_to_2pi(f(&a["a"]))),
+        "angle_signed_pi" => fo(angle_signed_pi(f(&a["a"]))),
+        "signed_compliment_2pi" => fo(signed_compliment_2pi(f(&a["a"]))),
+        "angle_in_direction" => json!({"cw": fo(angle_in_direction(f(&a["a"]), f(&a["b"]), AngleDir::Cw)), "ccw": fo(angle_in_direction(f(&a["a"]), f(&a["b"]), AngleDir::Ccw))}),
+        "angle_interval" => {
+            let i = AngleInterval::new(f(&a["start"]), f(&a["angle"]));
+            let mut o = json!({"start": fo(i.start()), "angle": fo(i.angle())});
+            if let Some(q) = a.get("q") { o["contains"] = json!(i.contains(f(q))); }
+            if let Some(s2) = a.get("start2") {
+                let j = AngleInterval::new(f(s2), f(&a["angle2"]));
+                o["intersects"] = json!(i.intersects(&j));
+                o["intersects_rev"] = json!(j.intersects(&i));
+            }
+            o
+        }
+        "vector_angles" => {
+            let v1 = Vector2::new(f(&a["v1"][0]), f(&a["v1"][1]));
+            let v2 = Vector2::new(f(&a["v2"][0]), f(&a["v2"][1]));
+            json!({"signed": fo(signed_angle(&v1, &v2)), "cw": fo(directed_angle(&v1, &v2, AngleDir::Cw)), "ccw": fo(directed_angle(&v1, &v2, AngleDir::Ccw))})
+        }
         _ => return None,
     })
 }
